@@ -882,11 +882,17 @@ func runCheck(prop, tier string) int {
 				continue
 			}
 			est := 0
-			for _, ph := range seg.Phases {
-				for _, prog := range ph {
+			for pi, ph := range seg.Phases {
+				for wi, prog := range ph {
 					for k := range prog {
 						if ref := ck.refs.get(&prog[k]); ref != nil {
 							est += ref.Steps + 2
+						}
+						// a marathon must stay within what one node process does in a few minutes even on a
+						// busy machine (a 72 000-call marathon with 2D symbols once ran into the node timeout)
+						if sc.Note == "marathon" && est > 8_000_000 {
+							seg.Phases[pi][wi] = prog[:k+1]
+							break
 						}
 					}
 				}
